@@ -132,13 +132,29 @@ def slot_rule(ctx, repo):
             ctx.violation('pair ' + key, 'skoolkit/simutils.py:%d' % exported[key][3], '; '.join(problems))
         else:
             ctx.ok({'pair': key, 'slots': [consts[lo], consts[hi]]})
+    # get_registers restores each state key into its slot and each register pair into the slots it was exported from: folded on marker values
+    from sa.core.classfold import ClassFolder
+    cf = ClassFolder(repo, 'simutils')
     gr = su.func('get_registers')
-    src = ast.unparse(gr)
-    for slot, skey in (('IM', 'im'), ('IFF', 'iff'), ('T', 'tstates'), ('HALT', 'halted')):
-        if "registers[%s] = state.get('%s'" % (slot, skey) in src:
+    try:
+        regs = list(cf.call_func('simutils', 'get_registers', [{}, {'im': 2, 'iff': 1, 'tstates': 123456789012, 'halted': 1}, False]))
+    except NotLiteral as e:
+        raise FactError('skoolkit/simutils.py: get_registers is not foldable (%s)' % e)
+    for slot, skey, want in (('IM', 'im', 2), ('IFF', 'iff', 1), ('T', 'tstates', 123456789012), ('HALT', 'halted', 1)):
+        if regs[consts[slot]] == want:
             ctx.ok({'state key': skey, 'slot': slot})
         else:
-            ctx.violation('get_registers ' + skey, 'skoolkit/simutils.py:%d' % gr.lineno, 'state key %s is not restored into slot %s' % (skey, slot))
+            ctx.violation('get_registers ' + skey, 'skoolkit/simutils.py:%d' % gr.lineno, 'state key %s is not restored into slot %s (slot holds %s after get_registers with %s=%s)' % (skey, slot, regs[consts[slot]], skey, want))
+    for key, (lo, hi) in PAIRS.items():
+        try:
+            regs = list(cf.call_func('simutils', 'get_registers', [{key: 0x1234}, None, False]))
+        except NotLiteral as e:
+            ctx.limit('get_registers ' + key, 'not foldable: %s' % e)
+            continue
+        if regs[consts[lo]] == 0x34 and regs[consts[hi]] == 0x12:
+            ctx.ok({'pair restored': key})
+        else:
+            ctx.violation('get_registers ' + key, 'skoolkit/simutils.py:%d' % gr.lineno, 'register pair %s=0x1234 is restored as slot %s=%s, slot %s=%s (expected 0x34 / 0x12)' % (key, lo, regs[consts[lo]], hi, regs[consts[hi]]))
 
 def hardware_rule(ctx, repo):
     ctx.rule('C10.2-hardware', 'every hardware attribute updated by a port-write handler is exported by get_state', floor=5)
